@@ -137,4 +137,4 @@ def run(report, findings):
                 "repetitions, random subsets, over-sized multisets, level-dropping subsets) x {common, group}; non-trivial = the "
                 "new-data matrix was produced and compared entry-wise with the training rows",
         "samples": FORMULAS[:3] + FORMULAS[20:23] + FORMULAS[-8:-5], "new_failures": bad})
-    report.assumptions = ["entry-wise comparison with absolute tolerance 1e-9 (floating point)"]
+    report.assumptions = list(dict.fromkeys(list(report.assumptions) + ["entry-wise comparison with absolute tolerance 1e-9 (floating point)"]))
